@@ -201,9 +201,15 @@ func TestVerifWire(t *testing.T) {
 
 // ---------------------------------------------------------------- pkt engine
 
+type pktFieldArg struct {
+	K   string      `json:"k"`   // key as written in the rule (any case)
+	V   string      `json:"v"`   // value (hex): a literal, or /regex/
+	AST interface{} `json:"ast"` // for /regex/ values: the AST the pattern was rendered from
+}
+
 type pktRuleArg struct {
-	Action string            `json:"action"`
-	Fields map[string]string `json:"fields"` // key (as written in the rule, any case) -> literal value (hex)
+	Action string        `json:"action"`
+	Fields []pktFieldArg `json:"fields"`
 }
 
 type pktNodeArg struct {
@@ -273,8 +279,8 @@ func pktBuild(na pktNodeArg) *pktSimNode {
 		var rd []FirewallRuleData
 		for _, r := range na.Rules {
 			m := FirewallRuleData{"action": r.Action}
-			for k, val := range r.Fields {
-				m[k] = string(verifUnhex(val))
+			for _, f := range r.Fields {
+				m[f.K] = string(verifUnhex(f.V))
 			}
 			rd = append(rd, m)
 		}
@@ -526,7 +532,7 @@ func (v *verifRun) pktScenario(k int, loops bool) ([]pktNodeArg, []string) {
 func (v *verifRun) pktRules(ids []string) []pktRuleArg {
 	var rules []pktRuleArg
 	for r := v.rng.Intn(4); r > 0; r-- {
-		ru := pktRuleArg{Action: []string{"accept", "reject", "drop", "Drop", "REJECT"}[v.rng.Intn(5)], Fields: map[string]string{}}
+		ru := pktRuleArg{Action: []string{"accept", "reject", "drop", "Drop", "REJECT"}[v.rng.Intn(5)], Fields: []pktFieldArg{}}
 		keys := [][]string{{"fromnode", "FromNode"}, {"tonode", "ToNode"}, {"fromservice", "FROMSERVICE"}, {"toservice", "ToService"}}
 		for fi, ks := range keys {
 			if v.rng.Intn(3) != 0 {
@@ -538,7 +544,13 @@ func (v *verifRun) pktRules(ids []string) []pktRuleArg {
 			} else {
 				val = pktSvcs[v.rng.Intn(len(pktSvcs))]
 			}
-			ru.Fields[ks[v.rng.Intn(2)]] = verifHex([]byte(val))
+			if v.rng.Intn(3) == 0 {
+				// a regular expression that matches val, or something near it
+				ast := v.reNear(val)
+				ru.Fields = append(ru.Fields, pktFieldArg{K: ks[v.rng.Intn(2)], V: verifHex([]byte("/" + reRender(ast, true) + "/")), AST: reJSON(ast)})
+			} else {
+				ru.Fields = append(ru.Fields, pktFieldArg{K: ks[v.rng.Intn(2)], V: verifHex([]byte(val))})
+			}
 		}
 		rules = append(rules, ru)
 	}
